@@ -121,8 +121,11 @@ def compareListL : List (LVal L) → List (LVal L) → Ordering
       | .eq => compareListL xs ys
 end
 
+/-- `<`, `<=`, `>`, `>=` (vm.c / corelib.c: `janet_compare(a, b) OP 0`) -/
 def jleL (a b : LVal L) : Bool := jcompareL a b != .gt
 def jltL (a b : LVal L) : Bool := jcompareL a b == .lt
+def jgtL (a b : LVal L) : Bool := jcompareL a b == .gt
+def jgeL (a b : LVal L) : Bool := jcompareL a b != .lt
 
 end
 
